@@ -4,6 +4,8 @@ CONSTANTS
   MaxPings = 2
   AsCoded = FALSE
   BadId = FALSE
+  AnyPort = FALSE
+  Layout = 1
   Pingers = {1, 3}
   Toggle = {2, 4, 5}
 INVARIANT CacheEntriesTruthful
@@ -15,6 +17,7 @@ INVARIANT PingTrueIffAllAnswered
 INVARIANT UnreachableGivesFalse
 INVARIANT EchoReplySameIdentifier
 INVARIANT UnicastToResolvedMac
+INVARIANT ArpReplyOnlyByOwner
 PROPERTY CacheOnlyByRx
 VIEW View
 CHECK_DEADLOCK FALSE
